@@ -123,6 +123,11 @@ func genPair(d pairDesc, rng *rand.Rand, quick bool) []*pairCase {
 		}
 	}
 	mk("mlfe", "n=2,MillerLoop+FinalExponentiation=native-Pair", 2, []*big.Int{a, rk()}, []*big.Int{b, rk()}, -1, -1, "", -1, true)
+	if !quick {
+		// an unsatisfiable execution must not change the verdict of the next one
+		// in the same process (package-level circuit elements keep caches)
+		mk("sequence", "failed-execution-then-correct-pair(n=1)", 1, []*big.Int{a}, []*big.Int{b}, -1, -1, "", -1, true)
+	}
 	// identity inputs: the packages document no support for them
 	mk("check", "n=1,P0=identity(product=1)", 1, []*big.Int{a}, []*big.Int{b}, 0, -1, "", -1, false)
 	mk("check", "n=2,P0=identity(product!=1)", 2, []*big.Int{a, a}, []*big.Int{b, one}, 0, -1, "", -1, false)
@@ -177,6 +182,8 @@ func genPair(d pairDesc, rng *rand.Rand, quick bool) []*pairCase {
 
 func pairCost(d pairDesc, c *pairCase) int {
 	switch c.Kind {
+	case "sequence":
+		return d.cost * 2
 	case "check", "pair", "mlfe":
 		n := c.N
 		if n < 1 {
@@ -209,6 +216,16 @@ func judgePair(r *vcore.Run, c *pairCase, o outcome) {
 	if (c.Kind == "ong1" || c.Kind == "ong2") && strings.Contains(o.Err, "not implemented") {
 		// sw_bls24315 declares these methods but panics("not implemented"): not offered
 		r.Count("pair.skipped-method-not-implemented", 1)
+		return
+	}
+	if c.Kind == "sequence" {
+		if o.Sat {
+			r.Count("pair.sequence.second-execution-unaffected", 1)
+			return
+		}
+		r.Count("pair.sequence.SECOND-EXECUTION-REJECTED", 1)
+		r.Violation("pairing."+c.Curve+".pair/correct-equation-rejected-after-a-failed-execution-in-the-same-process",
+			fmt.Sprintf("%s: Pair(P,Q)==e(P,Q) is unsatisfiable when the same process executed an unsatisfiable pairing circuit before (%s); in a fresh process the same case is satisfiable: package-level circuit state leaks between executions: %s", fam, o.Vals["note"], o.Err), rep)
 		return
 	}
 	if c.Kind == "isequal" && !o.Sat && strings.Contains(o.Err, "not supported") {
